@@ -131,6 +131,27 @@ fn other_table() -> Vec<(&'static str, Call)> {
         ("percent_decode", (|i: &[u8]| { let d = ohkami_lib::percent_decode(i); if let Cow::Borrowed(b) = &d { let mut o = vec![]; if !b.is_empty() { contained(b, i, &mut o) } if !o.is_empty() { return Out::Problem(o) } } Out::Ok }) as Call),
         ("percent_decode_utf8", (|i: &[u8]| judge(ohkami_lib::percent_decode_utf8(i), i)) as Call),
         ("iter_cookies", (|i: &[u8]| match std::str::from_utf8(i) { Ok(s) => { let v: Vec<(&str, &str)> = ohkami::util::iter_cookies(s).collect(); let mut o = vec![]; for (a, b) in v { check_str(a, true, i, &mut o); check_str(b, true, i, &mut o) } if o.is_empty() { Out::Ok } else { Out::Problem(o) } } Err(_) => Out::Err }) as Call),
+        // the request target as it comes off the socket: whatever is admitted must be readable through every view of the path
+        // and of the query (raw `Deref`/`AsRef<str>`, percent-decoded `str()`, `Debug`, the query iterator) without a panic
+        ("request-target", (|i: &[u8]| {
+            thread_local! { static ROUTER: &'static ohkami::__verif__::Router = Box::leak(Box::new(ohkami::__verif__::Router::new(ohkami::Ohkami::new(())))); }
+            let mut bytes = b"GET /".to_vec();
+            bytes.extend_from_slice(i);
+            bytes.extend_from_slice(b" HTTP/1.1\r\nHost: t\r\n\r\n");
+            let mut snap = None;
+            let s = ROUTER.with(|r| crate::web::session(r, vec![crate::memconn::Seg::Data(bytes)], crate::memconn::End::Hang, 1, |req| snap = Some(crate::engines::c02::snapshot(req, &[]))));
+            if let Some(crate::web::Step::Panicked(p)) = s.steps.first() { return Out::Problem(vec![format!("panic: {p}")]) }
+            match snap {
+                None => Out::Err,
+                Some(sn) => {
+                    let mut o = vec![];
+                    for (what, e) in [("path.str()", sn.path_str.as_ref().err()), ("&*path", sn.path_deref.as_ref().err()), ("query.iter()", sn.query.as_ref().err()), ("Debug", sn.debug.as_ref().err())] {
+                        if let Some(p) = e { o.push(format!("panic: {what}: {p}")) }
+                    }
+                    if o.is_empty() { Out::Ok } else { Out::Problem(o) }
+                }
+            }
+        }) as Call),
         ("param:String", (|i: &[u8]| judge(<String as FromParam>::from_raw_param(i), i)) as Call),
         ("param:Cow<str>", (|i: &[u8]| judge(<Cow<'_, str> as FromParam>::from_raw_param(i), i)) as Call),
         ("param:&str", (|i: &[u8]| judge(<&str as FromParam>::from_raw_param(i), i)) as Call),
@@ -201,6 +222,17 @@ fn gen_kv_input(rng: &mut Rng, sep: &[u8]) -> (Vec<u8>, &'static str) {
             v.push(b'=');
             v.extend_from_slice(val.as_bytes());
             (v, "long-multibyte-value")
+        }
+        8 if rng.chance(1, 2) => {
+            // characters spelled partly with escapes and partly with raw bytes: the decoded text and the raw text differ in validity
+            let mut v = vec![];
+            v.extend_from_slice(rng.pick(&keys).as_bytes());
+            v.push(b'=');
+            for _ in 0..rng.range(1, 4) {
+                let ch = *rng.pick(&["\u{3042}", "\u{e9}", "\u{1f43a}", "\u{72fc}", "a"]);
+                for b in ch.bytes() { if rng.bool() { v.push(b) } else { v.extend_from_slice(format!("%{b:02X}").as_bytes()) } }
+            }
+            (v, "partly-escaped-characters")
         }
         1 | 2 | 3 | 4 => {
             let n = rng.range(1, 4);
@@ -335,6 +367,7 @@ pub fn run_input(rep: &mut Report, case: u64, dname: &str, table: &[(&'static st
         let cj = || json!({"case_index": case, "decoder": dname, "target": tname, "input": crate::rng::show(input), "input_hex": crate::rng::hex(input), "input_class": iclass});
         match r {
             Err(p) => rep.violation(&format!("C08/panic:{dname}@{}", crate::report::panic_site(&p)), &format!("{dname} into {tname} panicked on {}: {p}", crate::rng::show(input)), cj()),
+            Ok(Out::Problem(ps)) if ps[0].starts_with("panic: ") => rep.violation(&format!("C08/panic:{dname}@{}", crate::report::panic_site(&ps[0])), &format!("{dname} into {tname} on {}: {}", crate::rng::show(input), ps[0]), cj()),
             Ok(Out::Problem(ps)) => rep.violation(&format!("C08/bad-value:{dname}:{}", if ps[0].contains("UTF-8") { "non-utf8-string" } else { "slice-outside-input" }), &format!("{dname} into {tname} on {}: {}", crate::rng::show(input), ps[0]), cj()),
             _ => {}
         }
@@ -374,7 +407,8 @@ pub fn run(args: &Args, rep: &mut Report) {
     let tables: Vec<(&str, Vec<(&'static str, Call)>)> = vec![("urlencoded", urlencoded_table()), ("cookie", cookie_table()), ("multipart", multipart_table()), ("other", other_table())];
     if args.shard == 0 && args.start == 0 {
         // witnesses of the repaired findings (and of inputs seeded changes needed), whatever the seed
-        let w: [(&str, &[u8]); 11] = [
+        let w: [(&str, &[u8]); 13] = [
+            ("other", b"files/%E3%81\x82.txt"), ("other", b"\xE3%81%82?q=%E3\x81%82"),
             ("urlencoded", b"x=1=2"), ("urlencoded", b"x=%FF&y"), ("cookie", b"x=%FF"), ("cookie", b"x=\""), ("cookie", b"x=\"; y=\"\""),
             ("multipart", b"--b\r\nContent-Disposition: form-data; name=\"x\"; filename=\"\"\r\nContent-Type: application/octet-stream\r\n\r\n\r\n--b--\r\n"),
             ("multipart", b"--b\r\nContent-Disposition: form-data; name=\"x\"\r\n\r\n--b--\r\n"),
